@@ -15,6 +15,7 @@ from vlib.hlib import *
 patch_bytesio()
 from vlib.chx_patches import opaque_int_text
 opaque_int_text()
+quiet_stderr()
 """
 
 HISTORIES = {
@@ -75,6 +76,7 @@ def run(tier: str) -> Outcome:
     return e1.run_e1(
         "C04", tier, build(tier), signature, fns,
         stubs=[
+            "gateway_base's sys.stderr swallows warnings inside harnesses (the C-level write rejects symbolic strings)",
             "the receiver thread body BaseGateway._thread_receiver is called synchronously on a real BaseGateway over the real Popen2IO / SocketIO",
             "PipeFile / FakeSocket over ChunkSource: the peer->survivor stream ends (b'') after `cut` bytes, reads return 1..n bytes per the chunk script; writes after close_write raise ValueError (closed file) / OSError (shut socket)",
             "text renderings of symbolic ints inside error messages are opaque (vlib/chx_patches.opaque_int_text)",
